@@ -1,6 +1,6 @@
 (* C18 — multiproof compression and compact block relay are lossless. *)
 From Coq Require Import List NArith Bool.
-From Sia Require Import Merkle.Tree Merkle.Multi Merkle.MultiProofs Merkle.MultiInfer Gateway.Outline.
+From Sia Require Import Merkle.Tree Merkle.Multi Merkle.MultiProofs Merkle.MultiInfer Merkle.MultiAll Gateway.Outline.
 Import ListNotations.
 Open Scope N_scope.
 
@@ -30,6 +30,21 @@ Theorem C18_proof_lengths_recovered : forall NL ls idx h,
   Forall (fun x => in_tree NL (fst x) (snd x)) ls -> In (idx, h) ls -> proof_len idx (infer_leaves ls) = Some h.
 Proof. exact proof_len_recovered. Qed.
 Print Assumptions C18_proof_lengths_recovered.
+
+(* the whole codec core, all trees of one state at once: for any list of leaves (any order, duplicates allowed) each
+   carrying the sibling path of its position in the tree of its height (trees aligned as in an accumulator), the
+   multiproof is computed without a panic, has exactly multiproofSize hashes, and expanding it over leaves that agree
+   with the originals only in index, leaf hash and proof length (what a decoder has) restores every proof *)
+Theorem C18_codec_lossless : forall (hash : Type) (node : hash -> hash -> hash) (T : nat -> ptree hash) (B : nat -> N)
+  (f : mleaf hash -> mleaf hash) ls rest,
+  (forall x, ml_idx hash (f x) = ml_idx hash x) -> (forall x, ml_hash hash (f x) = ml_hash hash x) ->
+  (forall x, length (ml_proof hash (f x)) = length (ml_proof hash x)) ->
+  Forall (leaf_ok hash node T B) ls ->
+  exists mp out, compute_all hash ls = Some mp /\ length mp = msize_all hash ls /\
+    expand_all hash node (map f ls) (mp ++ rest) = Some (out, rest) /\
+    forall x, In x ls -> lookup_proof hash out (length (ml_proof hash x)) (ml_idx hash x) = Some (ml_proof hash x).
+Proof. exact multiproof_codec_lossless. Qed.
+Print Assumptions C18_codec_lossless.
 
 (* the outline carries the block's transaction hashes whatever is omitted (so commitment and ID are those of the block) *)
 Theorem C18_outline_same_hashes : forall (T K : Type) (K_eqb : K -> K -> bool) (h : T -> K) b omit,
